@@ -815,6 +815,16 @@ package fzf
 //@   invariant mergerValid(merger)
 //@   invariant fresh(merger) && (fresh(merger.merged) || cap(merger.merged) == 0) && (fresh(merger.cursors) || len(merger.cursors) == 0)
 //@   invariant merger.sorted ==> sort && pattern.sortable
+// The decision to stream (match and print each record as it is read, keeping nothing): allowed only when nothing needs
+// the whole input first - no sorting (C04: rank order), no --tac (C04: reversed order), no --sync, and no --tail
+// (C06: only the last N records remain searchable; the streaming path never applies the tail limit).
+//@ func Run region#2 @"streamingFilter := opts.Filter != nil"
+//@ property C04 C06
+//@ requires opts != nil
+//@ assert @"if !streamingFilter {" streamingFilter ==> opts.Filter != nil && !sort && !opts.Tac && !opts.Sync && opts.Tail == 0
+//@ cut @"reader = NewReader(func(data []byte) bool {" the rest of Run is not part of this region
+//@ cut @"forward := true" the rest of Run is not part of this region
+
 //@ func Matcher.scan trusted
 //@ modifies *m
 //@ ensures r0 != nil && fresh(r0) && mergerValid(r0) && (r0.sorted ==> old(m.sort) && request.pattern.sortable)
